@@ -26,7 +26,8 @@ def ensure_hashseed():
     """Re-exec once with PYTHONHASHSEED=0 if it is not fixed already."""
     if os.environ.get("PYTHONHASHSEED") is None:
         os.environ["PYTHONHASHSEED"] = "0"
-        os.execv(sys.executable, [sys.executable] + sys.argv)
+        argv = list(getattr(sys, "orig_argv", None) or [sys.executable] + sys.argv)
+        os.execv(sys.executable, [sys.executable] + argv[1:])
 
 
 def import_pybads():
